@@ -2,6 +2,7 @@
 import copy
 import os
 
+import numpy as np
 from hypothesis import strategies as st
 
 from .. import codec, env, reftdf, specs
@@ -933,4 +934,149 @@ def enum_file_relations(tier):
 
 SUBS.append(Sub("files-each-relation", run_files, kind="enum", enumerate=enum_file_relations, shards=(4, 8),
                 rule="fixed files (events + EMG + 3D data) x each of the 11 file relations x table lengths {3,5,14} x 6 picks; finite, enumerated", nontrivial_required=False))
+
+
+# ---------------------------------------------------------------------------------------
+# operands whose sample arrays live in ONE buffer (windows of one recording), and recordings longer than any internal chunk
+FIELDS = {"emg": [("data", 0)], "data3D": [("data", 3)], "force3D": [("application_point", 3), ("force", 3), ("torque", 3)],
+          "platData": [("application_point", 2), ("force", 3), ("torque", 0)]}
+
+
+def _ramp(n, width, start=1.0, step=10.0):
+    """clearly different values (far beyond any tolerance): row i holds start + step*i (+ column)"""
+    a = (start + step * np.arange(n, dtype="<f4"))
+    return a.copy() if width == 0 else (a[:, None] + np.arange(width, dtype="<f4")[None, :]).astype("<f4")
+
+
+def _rle_objects(t, n, item_fields):
+    """a block of type t with len(item_fields) items; item_fields[i] = {field name: array}"""
+    if t == "emg":
+        from basictdf.tdfEMG import EMG, EMGTrack
+
+        b = EMG(1000, n, 0.0)
+        for i, f in enumerate(item_fields):
+            b.addSignal(EMGTrack(f"s{i}", f["data"]), channel=i)
+    elif t == "data3D":
+        from basictdf.tdfData3D import Data3D, MarkerTrack
+
+        b = Data3D(100, n, np.zeros(3, "<f4"), np.eye(3, dtype="<f4"), np.zeros(3, "<f4"))
+        for i, f in enumerate(item_fields):
+            b.add_track(MarkerTrack(f"m{i}", f["data"]))
+    elif t == "force3D":
+        from basictdf.tdfForce3D import ForceTorque3D, ForceTorqueTrack
+
+        b = ForceTorque3D(100, n, np.zeros(3, "<f4"), np.eye(3, dtype="<f4"), np.zeros(3, "<f4"))
+        for i, f in enumerate(item_fields):
+            b.add_track(ForceTorqueTrack(f"f{i}", f["application_point"], f["force"], f["torque"]))
+    else:
+        from basictdf.tdfForcePlatformsData import ForcePlatformData, ForcePlatformsDataBlock
+
+        b = ForcePlatformsDataBlock(0.0, 100, n)
+        for i, f in enumerate(item_fields):
+            b.add_platform(ForcePlatformData(f["application_point"], f["force"], f["torque"]), channel=i)
+    return b
+
+
+def _plain_fields(t, n, i):
+    return {name: _ramp(n, w, start=100.0 * (i + 1) + k) for k, (name, w) in enumerate(FIELDS[t])}
+
+
+def _verdicts(ctx, t, tag, a, b, expect, what):
+    compare(ctx, t, tag, a, b, expect, "a==b")
+    compare(ctx, t, tag, b, a, expect, "b==a")
+    try:
+        ne = bool(a != b)
+    except Exception:  # noqa - judged by compare() above
+        return
+    if ne != (not expect):
+        ctx.fail(f"{tag}/not-equal-operator-disagrees", f"{t}: a != b is {ne} for blocks that are {'equal' if expect else 'different'} ({what})")
+
+
+SHARED_VARIANTS = {"shifted-window": False, "reversed": False, "strided": False, "same-view": True, "shifted-window-of-constant": True, "shifted-window-of-gap": True,
+                   "copy-of-other-window": False}
+
+
+def enum_shared(tier):
+    for t in FIELDS:
+        for variant in SHARED_VARIANTS:
+            for n in (2, 5, 64):
+                for item in (0, 1):
+                    for fi in range(len(FIELDS[t])):
+                        yield {"t": t, "variant": variant, "n": n, "item": item, "field": fi}
+
+
+def run_shared(ctx, case):
+    t, variant, n, item, fi = case["t"], case["variant"], case["n"], case["item"], case["field"]
+    name, w = FIELDS[t][fi]
+    shape1 = (2 * n + 2,) if w == 0 else (2 * n + 2, w)
+    if variant == "shifted-window-of-constant":
+        rec = np.full(shape1, 7.5, dtype="<f4")
+    elif variant == "shifted-window-of-gap":
+        rec = np.full(shape1, np.nan, dtype="<f4")
+    else:
+        rec = _ramp(2 * n + 2, w)
+    xa = rec[0:n]
+    xb = {"shifted-window": rec[1:n + 1], "reversed": xa[::-1], "strided": rec[0:2 * n:2], "same-view": xa, "shifted-window-of-constant": rec[1:n + 1],
+          "shifted-window-of-gap": rec[1:n + 1], "copy-of-other-window": rec[1:n + 1].copy()}[variant]
+    expect = SHARED_VARIANTS[variant]
+    fa = [_plain_fields(t, n, i) for i in range(2)]
+    fb = [_plain_fields(t, n, i) for i in range(2)]
+    if variant == "shifted-window-of-gap":
+        # a gap is a frame missing in ALL fields of the item
+        for k, (nm, ww) in enumerate(FIELDS[t]):
+            g = np.full((2 * n + 2,) if ww == 0 else (2 * n + 2, ww), np.nan, dtype="<f4")
+            fa[item][nm], fb[item][nm] = g[0:n], g[1:n + 1]
+    fa[item][name], fb[item][name] = xa, xb
+    ok, a = ctx.must(lambda: _rle_objects(t, n, fa), "shared/build", f"constructing a valid {t} block from windows of one recording")
+    ok2, b = ctx.must(lambda: _rle_objects(t, n, fb), "shared/build", f"constructing a valid {t} block from windows of one recording")
+    if not (ok and ok2):
+        return
+    what = f"{name} of item {item}: a holds rec[0:{n}], b a {variant} view of the same buffer; shares memory: {bool(np.shares_memory(xa, xb))}"
+    _verdicts(ctx, t, f"views/{variant}", a, b, expect, what)
+    ctx.case(case, True, labels=[f"{t}:{variant}", f"n={n}", "expect-" + ("equal" if expect else "different")])
+
+
+def enum_long(tier):
+    lengths = (65537, 70000) if tier == "quick" else (65536, 65537, 70000, 131072 + 7, 200001)
+    for t in FIELDS:
+        for n in lengths:
+            for where in ("first", "65535", "65536", "last", "none"):
+                for kind in ("value", "gap"):
+                    if where == "none" and kind == "gap":
+                        continue
+                    for fi in range(len(FIELDS[t])):
+                        if where != "last" and fi:
+                            continue
+                        yield {"t": t, "n": n, "where": where, "kind": kind, "field": fi}
+
+
+def run_long(ctx, case):
+    t, n, where, kind, fi = case["t"], case["n"], case["where"], case["kind"], case["field"]
+    name, w = FIELDS[t][fi]
+    fa = [_plain_fields(t, n, 0)]
+    fb = [_plain_fields(t, n, 0)]
+    if where != "none":
+        k = {"first": 0, "65535": 65535, "65536": 65536, "last": n - 1}[where]
+        if kind == "value":
+            fb[0][name][k] = fb[0][name][k] + 1000.0 + 0.5 * abs(fb[0][name][k])
+        else:
+            for nm, _ in FIELDS[t]:
+                fb[0][nm][k] = np.nan
+    ok, a = ctx.must(lambda: _rle_objects(t, n, fa), "long/build", f"constructing a valid {t} block of {n} frames")
+    ok2, b = ctx.must(lambda: _rle_objects(t, n, fb), "long/build", f"constructing a valid {t} block of {n} frames")
+    if not (ok and ok2):
+        return
+    _verdicts(ctx, t, f"long/{kind if where != 'none' else 'equal'}-at-{where}", a, b, where == "none",
+              f"{n} frames, " + (f"{name} differs ({kind}) at frame {where}" if where != "none" else "built twice from the same values"))
+    ctx.case(case, True, labels=[f"{t}:n={n}", f"diff-at-{where}", kind])
+
+
+SUBS.append(Sub("operands-sharing-memory", run_shared, kind="enum", enumerate=enum_shared, shards=(4, 8),
+                rule="EMG / 3D data / 3D force / platform data pairs whose differing sample array is ANOTHER VIEW of the buffer the first operand's array lives in (windows "
+                     "rec[0:n] / rec[1:n+1] of one recording, reversed, strided; the same view; windows of a constant or all-gap recording, which hold equal content) x n in "
+                     "{2,5,64} x item x field: == in both orders and != follow the content, not the memory; finite, enumerated", nontrivial_required=False))
+SUBS.append(Sub("long-recordings", run_long, kind="enum", enumerate=enum_long, shards=(8, 16),
+                rule="the four sample-carrying types with 65537 / 70000 frames (thorough: 65536 .. 200001): one sample changed far beyond tolerance, or one frame turned into a "
+                     "gap, at the first frame, at 65535, 65536 and at the LAST frame (each field), and the pair built twice from the same values; finite, enumerated",
+                nontrivial_required=False))
 TIME_BUDGET = {"quick": 150, "thorough": 1500}
